@@ -84,4 +84,17 @@ PROPS = {
                         "single client (no concurrent requests); crash points are storage call boundaries",
                         "after a failed or interrupted operation the ids it names are don't-cares until rewritten"],
     },
+    "C10": {
+        "level": "exploration",
+        "build": "plain",
+        "tiers": tiers(5000, 45, 150000, 900),
+        "rule": "per rule id a seeded walk through add / overwrite (same or replaced `when`) / remove / disable / enable (in the owning location and, for an "
+                "inherited rule, in the child) / expire (ttl + clock advance) / reload / location disable-enable / overwrite by plain data / Clear, "
+                "with and without a parent location owning a rule; after every step each location processes the events matching every rule's current "
+                "and former pattern. Judged: dispatched (rule, bindings) sets, ProcessEvent().Values against the rules' constant action values, "
+                "RuleEnabled, GetFact of the disabled flag, storage dump; in a disabled location every operation must report an error. "
+                "Non-trivial: an event fired at least one rule; distinct = distinct (event or operation, canonical model state) pairs.",
+        "components": {"real": REAL, "stub": STUB_COMMON + ["core.SimpleLocationProvider wiring of the parent"]},
+        "assumptions": ["core.Matches as matching primitive", "RuleEnabled for an id that is not a rule is not judged"],
+    },
 }
